@@ -91,8 +91,10 @@ func (w *World) global(g *ssa.Global) *Obj {
 		t := g.Type().(*types.Pointer).Elem()
 		o = w.newObj(zero(t), t)
 		w.globals[g] = o
-		if iv, ok := w.eng.initValue(w, g); ok {
-			o.v = iv
+		if g.Pkg == nil || g.Pkg.Pkg.Path() != leaderPkg {
+			if iv, ok := w.eng.initValue(w, g); ok {
+				o.v = iv
+			}
 		}
 	}
 	return o
